@@ -10,7 +10,7 @@ MANIFEST = dict(
     technique="Lean 4 proof over a hand-written state-machine model (constants regenerated from source) + correspondence run with real child processes and /proc observation",
     design="5/C16",
 )
-GEN = ["Timing"]
+GEN = ["Timing/grace"]
 THEOREMS = [
     "c16_translated",
     "c16_grace_periods",
